@@ -856,6 +856,11 @@ func (c *FnCtx) generate() (vc *FnVC, err error) {
 		c.translateBlock(b, entryItems)
 	}
 	if c.con != nil {
+		for key := range c.con.AtStore {
+			if !c.atNewSeen["store:"+key] {
+				panic("spec: `atstore " + key + "` in the contract of " + c.fnKey() + " matches no store to that field in the function")
+			}
+		}
 		for tn := range c.con.AtNew {
 			if !c.atNewSeen[tn] {
 				panic("spec: `atnew " + tn + "` in the contract of " + c.fnKey() + " matches no allocation of that type in the function")
